@@ -417,7 +417,7 @@ func guard(o **core.Outcome, c *core.Case) {
 type baseCheck struct{}
 
 func (baseCheck) Components() ([]string, []string) { return stdReal, stdStub }
-func (baseCheck) RequiredProbes(string) []string    { return nil }
+func (baseCheck) RequiredProbes(string) []string   { return nil }
 func (baseCheck) Assumptions() []string {
 	return []string{
 		"tmpfs (/dev/shm) stands in for the POSIX file system; kernel behaviour is trusted",
